@@ -43,7 +43,7 @@ def main():
                 continue
             patches.append((pid, k, os.path.join(d, "patch.diff"), os.path.join(d, "demo.py")))
             seen.add((pid, k))
-    for d in sorted(glob.glob("/tmp/seed/C*.out")):
+    for d in sorted(glob.glob(os.path.join(os.environ.get("SEED_DIR", "/tmp/seed"), "C*.out"))):
         pid = os.path.basename(d)[:3]
         for pf in sorted(glob.glob(os.path.join(d, "patch_*.diff"))):
             k0 = re.search(r"patch_(\d+)", pf).group(1)
